@@ -89,6 +89,9 @@ type Msg struct {
 	// SetEmbeds(other.GetEmbeds()) / SetAttachments(other.GetAttachments()); the other Msg is then recycled: Reset(),
 	// three new attachments and embeds (1), and additionally rendered once (2)
 	Donor int `json:"donor,omitempty"`
+	// PGP: the message carries a PGP type (1 = PGPEncrypt, 2 = PGPSignature): go-mail wraps the caller's parts in a
+	// multipart/encrypted or multipart/signed
+	PGP int `json:"pgp,omitempty"`
 }
 
 // MWFooter is the text middleware 2 appends; MWFile is the attachment middleware 3 adds.
@@ -208,6 +211,12 @@ func Build(s Msg, h *Hooks) (*mail.Msg, error) {
 		opts = append(opts, mail.WithMiddleware(middleware{s.MW}))
 	}
 	m := mail.NewMsg(opts...)
+	switch s.PGP {
+	case 1:
+		m.SetPGPType(mail.PGPEncrypt)
+	case 2:
+		m.SetPGPType(mail.PGPSignature)
+	}
 	if s.Setters == 1 {
 		msgSetters(m)
 	}
@@ -573,6 +582,9 @@ func (s Msg) Describe() string {
 	}
 	if s.MW != 0 {
 		fmt.Fprintf(&b, " middleware=%d", s.MW)
+	}
+	if s.PGP != 0 {
+		fmt.Fprintf(&b, " pgp-type=%d", s.PGP)
 	}
 	if s.Donor != 0 {
 		fmt.Fprintf(&b, " files-taken-over-from-a-recycled-msg=%d", s.Donor)
